@@ -31,9 +31,9 @@ fn cm_of<const N: usize>(c: &[[u8; N]; N]) -> ConfusionMatrix<u8> {
     for k in 0..N { m.push(k as u8); }
     ConfusionMatrix { matrix: Array2::from_shape_vec((N, N), v).unwrap(), members: Array1::from(m) }
 }
-fn cells<const N: usize>() -> [[u8; N]; N] {
+fn cells<const N: usize>(max: u8) -> [[u8; N]; N] {
     let mut c = [[0u8; N]; N];
-    for p in 0..N { for t in 0..N { c[p][t] = cell(); } }
+    for p in 0..N { for t in 0..N { c[p][t] = cell(); kani::assume(c[p][t] <= max); } }
     c
 }
 fn total<const N: usize>(c: &[[u8; N]; N]) -> i32 {
@@ -57,11 +57,20 @@ fn mcc_terms<const N: usize>(c: &[[u8; N]; N]) -> (i32, i32, i32) {
     for k in 0..N { num -= p[k] * t[k]; a -= p[k] * p[k]; b -= t[k] * t[k]; }
     (num, a, b)
 }
-/// `sqrt` is uninterpreted (ghost): the contract fixes the three integer quantities that enter the
-/// coefficient and accepts every way of forming num / sqrt(a*b) from the two roots.
-fn mcc_ok(r: f32, num: i32, a: i32, b: i32) -> bool {
-    let (n, sa, sb) = (num as f32, ghost_sqrt32(a as f32), ghost_sqrt32(b as f32));
-    feq(r, n / sa / sb) || feq(r, n / sb / sa) || feq(r, n / (sa * sb))
+/// Which square roots are taken (sqrt uninterpreted, ghost table read back): either the roots of the two
+/// marginal terms a and b, or one root of their product.
+fn mcc_roots_ok(a: i32, b: i32) -> bool {
+    let (fa, fb) = (a as f32, b as f32);
+    unsafe {
+        (G_SQRT_N == 2 && ((G_SQRT_A[0] == fa && G_SQRT_A[1] == fb) || (G_SQRT_A[0] == fb && G_SQRT_A[1] == fa)))
+            || (G_SQRT_N == 1 && G_SQRT_A[0] == fa * fb)
+    }
+}
+/// Value on matrices where a = ra^2 and b = rb^2 are perfect squares, so sqrt(a*b) = ra*rb exactly:
+/// num / (ra*rb), or the same quotient formed by two successive divisions (differs by rounding only).
+fn mcc_value_ok(r: f32, num: i32, ra: i32, rb: i32) -> bool {
+    let n = num as f32;
+    feq(r, n / (ra * rb) as f32) || feq(r, n / ra as f32 / rb as f32) || feq(r, n / rb as f32 / ra as f32)
 }
 fn is_bin(m: &ConfusionMatrix<bool>, tp: i32, fp: i32, fnn: i32, tn: i32) -> bool {
     m.matrix.dim() == (2, 2)
@@ -76,7 +85,7 @@ fn is_bin(m: &ConfusionMatrix<bool>, tp: i32, fp: i32, fnn: i32, tn: i32) -> boo
 #[kani::unwind(6)]
 #[kani::stub(alloc::fmt::format, fmt_stub)]
 fn c05_cm2_accuracy() {
-    let c = cells::<2>();
+    let c = cells::<2>(15);
     let cm = cm_of(&c);
     let (tp, tn, s) = (c[0][0] as i32, c[1][1] as i32, total(&c));
     assert!(feq(cm.accuracy(), (tp + tn) as f32 / s as f32));
@@ -89,7 +98,7 @@ fn c05_cm2_accuracy() {
 #[kani::unwind(6)]
 #[kani::stub(alloc::fmt::format, fmt_stub)]
 fn c05_cm2_precision_textbook() {
-    let c = cells::<2>();
+    let c = cells::<2>(15);
     let cm = cm_of(&c);
     let (tp, fp) = (c[0][0] as f32, c[0][1] as f32);
     assert!(feq(cm.precision(), tp / (tp + fp)));
@@ -101,7 +110,7 @@ fn c05_cm2_precision_textbook() {
 #[kani::unwind(6)]
 #[kani::stub(alloc::fmt::format, fmt_stub)]
 fn c05_cm2_recall_textbook() {
-    let c = cells::<2>();
+    let c = cells::<2>(15);
     let cm = cm_of(&c);
     let (tp, fnn) = (c[0][0] as f32, c[1][0] as f32);
     assert!(feq(cm.recall(), tp / (tp + fnn)));
@@ -109,12 +118,13 @@ fn c05_cm2_recall_textbook() {
 }
 
 // F1 is symmetric in precision and recall; the documented formula is evaluated on the textbook P and R
-// @unit class=bounded tier=quick bound="2x2,cells 0..15" fns=linfa::metrics_classification::ConfusionMatrix::f1_score,linfa::metrics_classification::ConfusionMatrix::f_score
+// @unit class=bounded tier=quick bound="2x2,cells 0..7" fns=linfa::metrics_classification::ConfusionMatrix::f1_score,linfa::metrics_classification::ConfusionMatrix::f_score
 #[kani::proof]
 #[kani::unwind(6)]
+#[kani::solver(kissat)]
 #[kani::stub(alloc::fmt::format, fmt_stub)]
 fn c05_cm2_f1() {
-    let c = cells::<2>();
+    let c = cells::<2>(7);
     let cm = cm_of(&c);
     let (tp, fp, fnn) = (c[0][0] as f32, c[0][1] as f32, c[1][0] as f32);
     let (p, r) = (tp / (tp + fp), tp / (tp + fnn));
@@ -125,12 +135,13 @@ fn c05_cm2_f1() {
 }
 
 // rustdoc of f_score: "(1.0 + b*b) * (precision * recall) / (b * b * precision + recall)"
-// @unit class=bounded tier=quick bound="2x2,cells 0..15,beta in {1/2,1,2}" fns=linfa::metrics_classification::ConfusionMatrix::f_score
+// @unit class=bounded tier=quick bound="2x2,cells 0..7,beta in {1/2,1,2}" fns=linfa::metrics_classification::ConfusionMatrix::f_score
 #[kani::proof]
 #[kani::unwind(6)]
+#[kani::solver(kissat)]
 #[kani::stub(alloc::fmt::format, fmt_stub)]
 fn c05_cm2_fbeta_of_own_scores() {
-    let c = cells::<2>();
+    let c = cells::<2>(7);
     let cm = cm_of(&c);
     let k: u8 = kani::any();
     kani::assume(k < 3);
@@ -141,12 +152,13 @@ fn c05_cm2_fbeta_of_own_scores() {
     kani::cover!(k == 2 && c[0][0] > 0);
 }
 
-// @unit class=bounded tier=quick bound="2x2,cells 0..15,beta in {1/2,2}" fns=linfa::metrics_classification::ConfusionMatrix::f_score
+// @unit class=bounded tier=quick bound="2x2,cells 0..7,beta in {1/2,2}" fns=linfa::metrics_classification::ConfusionMatrix::f_score
 #[kani::proof]
 #[kani::unwind(6)]
+#[kani::solver(kissat)]
 #[kani::stub(alloc::fmt::format, fmt_stub)]
 fn c05_cm2_fbeta_textbook() {
-    let c = cells::<2>();
+    let c = cells::<2>(7);
     let cm = cm_of(&c);
     let k: bool = kani::any();
     let b = if k { 0.5f32 } else { 2.0 };
@@ -156,22 +168,44 @@ fn c05_cm2_fbeta_textbook() {
     kani::cover!(k && c[0][1] != c[1][0] && c[0][0] > 0);
 }
 
-// @unit class=bounded tier=quick bound="2x2,cells 0..15" fns=linfa::metrics_classification::ConfusionMatrix::mcc
+// @unit class=bounded tier=quick bound="2x2,cells 0..15,sqrt uninterpreted" fns=linfa::metrics_classification::ConfusionMatrix::mcc
 #[kani::proof]
 #[kani::unwind(6)]
+#[kani::solver(kissat)]
 #[kani::stub(alloc::fmt::format, fmt_stub)]
 #[kani::stub(f32::sqrt, ghost_sqrt32)]
-fn c05_cm2_mcc() {
-    let c = cells::<2>();
+fn c05_cm2_mcc_roots() {
+    let c = cells::<2>(15);
     let cm = cm_of(&c);
     let (num, a, b) = mcc_terms(&c);
     // the K-class terms are twice the terms of the binary Matthews coefficient
     let (tp, fp, fnn, tn) = (c[0][0] as i32, c[0][1] as i32, c[1][0] as i32, c[1][1] as i32);
     assert!(num == 2 * (tp * tn - fp * fnn) && a == 2 * (tp + fp) * (fnn + tn) && b == 2 * (tp + fnn) * (fp + tn));
+    let _r = cm.mcc();
+    assert!(mcc_roots_ok(a, b));
+    kani::cover!(a > 0 && b > 0 && a != b);
+}
+
+// @unit class=bounded tier=quick bound="2x2,cells 0..15,both marginal terms perfect squares" fns=linfa::metrics_classification::ConfusionMatrix::mcc
+#[kani::proof]
+#[kani::unwind(6)]
+#[kani::solver(kissat)]
+#[kani::stub(alloc::fmt::format, fmt_stub)]
+#[kani::stub(f32::sqrt, sqrt_tab32)]
+fn c05_cm2_mcc_value() {
+    let c = cells::<2>(15);
+    let cm = cm_of(&c);
+    let (num, a, b) = mcc_terms(&c);
+    let (ra, rb): (i32, i32) = (kani::any(), kani::any());
+    kani::assume(ra >= 0 && ra <= 42 && rb >= 0 && rb <= 42);
+    kani::assume(a == announce_root(0, ra) && b == announce_root(1, rb));
+    unsafe { SQ_ARG[2] = (a * b) as f32; SQ_RES[2] = (ra * rb) as f32; }
     let r = cm.mcc();
-    assert!(mcc_ok(r, num, a, b));
-    kani::cover!(num > 0 && a > 0 && b > 0 && a != b);
-    kani::cover!(num < 0 && a > 0 && b > 0);
+    assert!(mcc_value_ok(r, num, ra, rb));
+    kani::cover!(num > 0 && ra > 0 && rb > 0 && ra != rb);
+    kani::cover!(num < 0 && ra > 0 && rb > 0);
+    kani::cover!(r == 1.0);
+    kani::cover!(r == -0.5);
     kani::cover!(r.is_nan());
 }
 
@@ -181,7 +215,7 @@ fn c05_cm2_mcc() {
 #[kani::unwind(11)]
 #[kani::stub(alloc::fmt::format, fmt_stub)]
 fn c05_cm3_accuracy() {
-    let c = cells::<3>();
+    let c = cells::<3>(15);
     let cm = cm_of(&c);
     let tr = c[0][0] as i32 + c[1][1] as i32 + c[2][2] as i32;
     let s = total(&c);
@@ -195,7 +229,7 @@ fn c05_cm3_accuracy() {
 #[kani::unwind(11)]
 #[kani::stub(alloc::fmt::format, fmt_stub)]
 fn c05_cm3_precision_macro_textbook() {
-    let c = cells::<3>();
+    let c = cells::<3>(15);
     let cm = cm_of(&c);
     let mut q = [0f32; 3];
     for i in 0..3 { let (tp, fp, _fn, _tn) = ova(&c, i); q[i] = tp as f32 / (tp + fp) as f32; }
@@ -209,7 +243,7 @@ fn c05_cm3_precision_macro_textbook() {
 #[kani::unwind(11)]
 #[kani::stub(alloc::fmt::format, fmt_stub)]
 fn c05_cm3_recall_macro_textbook() {
-    let c = cells::<3>();
+    let c = cells::<3>(15);
     let cm = cm_of(&c);
     let mut q = [0f32; 3];
     for i in 0..3 { let (tp, _fp, fnn, _tn) = ova(&c, i); q[i] = tp as f32 / (tp + fnn) as f32; }
@@ -217,19 +251,39 @@ fn c05_cm3_recall_macro_textbook() {
     kani::cover!(!cm.recall().is_nan() && c[0][1] != c[1][0]);
 }
 
-// @unit class=bounded tier=quick mem=heavy bound="3x3,cells 0..15" fns=linfa::metrics_classification::ConfusionMatrix::mcc
+// @unit class=bounded tier=thorough mem=heavy bound="3x3,cells 0..3,sqrt uninterpreted" fns=linfa::metrics_classification::ConfusionMatrix::mcc
 #[kani::proof]
 #[kani::unwind(11)]
+#[kani::solver(kissat)]
 #[kani::stub(alloc::fmt::format, fmt_stub)]
 #[kani::stub(f32::sqrt, ghost_sqrt32)]
-fn c05_cm3_mcc() {
-    let c = cells::<3>();
+fn c05_cm3_mcc_roots() {
+    let c = cells::<3>(3);
+    let cm = cm_of(&c);
+    let (_num, a, b) = mcc_terms(&c);
+    let _r = cm.mcc();
+    assert!(mcc_roots_ok(a, b));
+    kani::cover!(a > 0 && b > 0 && a != b);
+}
+
+// @unit class=bounded tier=thorough mem=heavy bound="3x3,cells 0..3,both marginal terms perfect squares" fns=linfa::metrics_classification::ConfusionMatrix::mcc
+#[kani::proof]
+#[kani::unwind(11)]
+#[kani::solver(kissat)]
+#[kani::stub(alloc::fmt::format, fmt_stub)]
+#[kani::stub(f32::sqrt, sqrt_tab32)]
+fn c05_cm3_mcc_value() {
+    let c = cells::<3>(3);
     let cm = cm_of(&c);
     let (num, a, b) = mcc_terms(&c);
+    let (ra, rb): (i32, i32) = (kani::any(), kani::any());
+    kani::assume(ra >= 0 && ra <= 27 && rb >= 0 && rb <= 27);
+    kani::assume(a == announce_root(0, ra) && b == announce_root(1, rb));
+    unsafe { SQ_ARG[2] = (a * b) as f32; SQ_RES[2] = (ra * rb) as f32; }
     let r = cm.mcc();
-    assert!(mcc_ok(r, num, a, b));
-    kani::cover!(num > 0 && a > 0 && b > 0 && a != b);
-    kani::cover!(num < 0 && a > 0 && b > 0);
+    assert!(mcc_value_ok(r, num, ra, rb));
+    kani::cover!(num > 0 && ra > 0 && rb > 0 && ra != rb);
+    kani::cover!(num < 0 && ra > 0 && rb > 0);
 }
 
 // ---------------------------------------------------------------- splits
@@ -238,17 +292,18 @@ fn c05_cm3_mcc() {
 #[kani::unwind(6)]
 #[kani::stub(alloc::fmt::format, fmt_stub)]
 fn c05_cm2_one_vs_all() {
-    let c = cells::<2>();
+    let c = cells::<2>(15);
     let cm = cm_of(&c);
     let out = cm.split_one_vs_all();
     assert!(out.len() == 2);
     for i in 0..2 {
         let (tp, fp, fnn, tn) = ova(&c, i);
         assert!(is_bin(&out[i], tp, fp, fnn, tn));
-        assert!(out[i].matrix.sum() == total(&c) as f32);
+        let m = &out[i].matrix;
+        assert!(m[(0, 0)] + m[(0, 1)] + m[(1, 0)] + m[(1, 1)] == total(&c) as f32);
     }
     // the split of the positive class of a binary matrix is the matrix itself
-    assert!(out[0].matrix == cm.matrix);
+    assert!(is_bin(&out[0], c[0][0] as i32, c[0][1] as i32, c[1][0] as i32, c[1][1] as i32));
     kani::cover!(c[0][1] != c[1][0]);
 }
 
@@ -257,14 +312,15 @@ fn c05_cm2_one_vs_all() {
 #[kani::unwind(11)]
 #[kani::stub(alloc::fmt::format, fmt_stub)]
 fn c05_cm3_one_vs_all() {
-    let c = cells::<3>();
+    let c = cells::<3>(15);
     let cm = cm_of(&c);
     let out = cm.split_one_vs_all();
     assert!(out.len() == 3);
     for i in 0..3 {
         let (tp, fp, fnn, tn) = ova(&c, i);
         assert!(is_bin(&out[i], tp, fp, fnn, tn));
-        assert!(out[i].matrix.sum() == total(&c) as f32);
+        let m = &out[i].matrix;
+        assert!(m[(0, 0)] + m[(0, 1)] + m[(1, 0)] + m[(1, 1)] == total(&c) as f32);
     }
     kani::cover!(c[0][1] != c[1][0] && c[1][2] != c[2][1] && c[0][2] != c[2][0]);
 }
@@ -278,7 +334,7 @@ fn c05_cm3_one_vs_all() {
 #[kani::unwind(11)]
 #[kani::stub(alloc::fmt::format, fmt_stub)]
 fn c05_cm3_one_vs_one_pairs_present() {
-    let c = cells::<3>();
+    let c = cells::<3>(15);
     let cm = cm_of(&c);
     let out = cm.split_one_vs_one();
     let mut k = 0usize;
@@ -298,7 +354,7 @@ fn c05_cm3_one_vs_one_pairs_present() {
 #[kani::unwind(11)]
 #[kani::stub(alloc::fmt::format, fmt_stub)]
 fn c05_cm3_one_vs_one_exact() {
-    let c = cells::<3>();
+    let c = cells::<3>(15);
     let cm = cm_of(&c);
     let out = cm.split_one_vs_one();
     assert!(out.len() == 3);
@@ -425,79 +481,3 @@ fn c05_logloss_empty_is_error() {
     kani::cover!(r.is_err());
 }
 
-// EXPERIMENTS (temporary)
-fn cellsm<const N: usize>(m: u8) -> [[u8; N]; N] {
-    let mut c = [[0u8; N]; N];
-    for p in 0..N { for t in 0..N { c[p][t] = cell(); kani::assume(c[p][t] <= m); } }
-    c
-}
-// @unit class=bounded tier=thorough bound="x" timeout=300 fns=x
-#[kani::proof]
-#[kani::unwind(6)]
-#[kani::solver(kissat)]
-#[kani::stub(alloc::fmt::format, fmt_stub)]
-fn c05_exp_f1_cells7k() {
-    let c = cellsm::<2>(7);
-    let cm = cm_of(&c);
-    let (tp, fp, fnn) = (c[0][0] as f32, c[0][1] as f32, c[1][0] as f32);
-    let (p, r) = (tp / (tp + fp), tp / (tp + fnn));
-    assert!(feq(cm.f1_score(), (1.0 + 1.0) * (p * r) / (1.0 * p + r)));
-    kani::cover!(c[0][1] != c[1][0] && c[0][0] > 0);
-}
-// @unit class=bounded tier=thorough bound="x" timeout=300 fns=x
-#[kani::proof]
-#[kani::unwind(6)]
-#[kani::solver(kissat)]
-#[kani::stub(alloc::fmt::format, fmt_stub)]
-#[kani::stub(f32::sqrt, ghost_sqrt32)]
-fn c05_exp_mcc_table3() {
-    let c = cellsm::<2>(3);
-    let cm = cm_of(&c);
-    let (num, a, b) = mcc_terms(&c);
-    let r = cm.mcc();
-    unsafe {
-        assert!(G_SQRT_N == 2);
-        assert!((G_SQRT_A[0] == a as f32 && G_SQRT_A[1] == b as f32) || (G_SQRT_A[0] == b as f32 && G_SQRT_A[1] == a as f32));
-        let (s0, s1) = (G_SQRT_R[0], G_SQRT_R[1]);
-        let n = num as f32;
-        assert!(feq(r, n / s0 / s1) || feq(r, n / s1 / s0) || feq(r, n / (s0 * s1)));
-    }
-    kani::cover!(num > 0 && a > 0 && b > 0 && a != b);
-}
-// @unit class=bounded tier=thorough bound="x" timeout=300 fns=x
-#[kani::proof]
-#[kani::unwind(6)]
-#[kani::solver(kissat)]
-#[kani::stub(alloc::fmt::format, fmt_stub)]
-#[kani::stub(f32::sqrt, ghost_sqrt32)]
-fn c05_exp_mcc_table1() {
-    let c = cellsm::<2>(3);
-    let cm = cm_of(&c);
-    let (num, a, b) = mcc_terms(&c);
-    let r = cm.mcc();
-    unsafe {
-        assert!(G_SQRT_N == 2);
-        assert!((G_SQRT_A[0] == a as f32 && G_SQRT_A[1] == b as f32) || (G_SQRT_A[0] == b as f32 && G_SQRT_A[1] == a as f32));
-        let (s0, s1) = (G_SQRT_R[0], G_SQRT_R[1]);
-        let n = num as f32;
-        assert!(feq(r, n / s0 / s1));
-    }
-    kani::cover!(num > 0 && a > 0 && b > 0 && a != b);
-}
-// @unit class=bounded tier=thorough bound="x" timeout=300 fns=x
-#[kani::proof]
-#[kani::unwind(6)]
-#[kani::solver(kissat)]
-#[kani::stub(alloc::fmt::format, fmt_stub)]
-#[kani::stub(f32::sqrt, ghost_sqrt32)]
-fn c05_exp_mcc_argsonly() {
-    let c = cellsm::<2>(15);
-    let cm = cm_of(&c);
-    let (_num, a, b) = mcc_terms(&c);
-    let _r = cm.mcc();
-    unsafe {
-        assert!(G_SQRT_N == 2);
-        assert!((G_SQRT_A[0] == a as f32 && G_SQRT_A[1] == b as f32) || (G_SQRT_A[0] == b as f32 && G_SQRT_A[1] == a as f32));
-    }
-    kani::cover!(a > 0 && b > 0 && a != b);
-}
